@@ -14,7 +14,7 @@ def main():
     try:
         shutil.copytree("/repo/gcmpy", os.path.join(tmp, "gcmpy"), ignore=shutil.ignore_patterns("__pycache__"))
         if patch != "-":
-            subprocess.run(["git", "apply", "--unsafe-paths", "--directory", tmp, os.path.abspath(patch)], check=True, cwd=tmp)
+            subprocess.run(["git", "apply", "--include=*/gcmpy/*", "--unsafe-paths", "--directory", tmp, os.path.abspath(patch)], check=True, cwd=tmp)
         p = Program(tmp)
         for l in p.normalized:
             print("norm:", l)
